@@ -552,6 +552,17 @@ class Gen:
                 c.genes = [tuple(g) for g in genes]
                 c.kinds = ["R"] * len(genes)
                 out.append(c)
+        # a root whose NAME has the shape (a)+(b): the naive outer-parenthesis strip of language() removes
+        # two parentheses that do not match (Refuted_C19.v: C19_naive_strip_refuted); names are not expressions,
+        # so this is outside the property -- model and implementation must agree on the bytes
+        for nm in [b"(a)+(b)", b"(x)", b"()", b"(", b"(a)(b)"]:
+            c = Case("malformed")
+            c.wellformed = False
+            c.typed = False
+            c.catmap = {"R": 0}
+            c.genes = [(c.sym_index({"k": "V", "name": nm, "cat": 0}), None, [])]
+            c.kinds = ["R"]
+            out.append(c)
         for sv in [b"%%1%%", b"%%2%%", b"a%%3%%b", b"%%1%%%%2%%", b"%%", b"x%%", b"%%4%%"]:
             for p in self.cat.functions():
                 if "S" not in p[3] or p[0].startswith("int_"):
